@@ -144,7 +144,7 @@ impl Check for C09 {
         vec!["the memory bound is linear in input size times prototype length: decoding one packet legitimately yields up to 8 x packet bytes values per record".into()]
     }
     fn budget(t: Tier) -> usize {
-        t.pick(30_000, 1_000_000)
+        t.pick(100_000, 2_000_000)
     }
     fn gen(s: &mut Src, _t: Tier) -> Case {
         let mut script = gen_script(s);
